@@ -74,6 +74,8 @@ static jv *verdict_base(int ok)
 
 static jv *cur_call;
 static jv *cur_keys;
+static jv *soft_div;      /* an allocation-count-only difference seen earlier in this script */
+static int soft_offset;
 static jv *trace;  /* array of observed records when --trace */
 
 static void diverge(const char *kind, const char *key, jv *exp, jv *obs)
@@ -84,6 +86,7 @@ static void diverge(const char *kind, const char *key, jv *exp, jv *obs)
   if (cur_call) { j_put(v, "fn", j_mkstr(j_str(cur_call, "fn", "?"))); j_put(v, "call", cur_call); }
   if (key) j_put(v, "key", j_mkstr(key));
   if (cur_keys) j_put(v, "keys", cur_keys);
+  if (soft_div) j_put(v, "also", soft_div);
   if (exp) j_put(v, "exp", exp);
   if (obs) j_put(v, "obs", obs);
   if (trace) j_put(v, "trace", trace);
@@ -326,7 +329,7 @@ static jv *obs_key(const char *key, jv *call, long r, jv *extra)
   if (!strcmp(key, "dt")) return j_mkint(K->now - t_call);
   if (!strcmp(key, "blk")) return j_mkint(K->blocks > 0);
   if (!strcmp(key, "nfd")) return j_mkint(sk_nfds(0));
-  if (!strcmp(key, "nalloc")) return j_mkint(sk_nalloc());
+  if (!strcmp(key, "nalloc")) return j_mkint(sk_nalloc() - soft_offset);
   if (!strcmp(key, "st")) return child_states();
   if (!strcmp(key, "bad")) return j_mkint(rbad);
   if (!strcmp(key, "sig") || !strcmp(key, "reap") || !strcmp(key, "mon") || !strcmp(key, "created")) {
@@ -1070,8 +1073,16 @@ static void run_script(jv *s)
           /* all keys of one return are one simultaneous observation: report every differing key */
           jv *o = obs_all(st, r, extra);
           for (int i = 0; i < badkeys->n; i++) j_put(o, badkeys->a[i]->s, obs_key(badkeys->a[i]->s, st, r, extra));
-          cur_keys = badkeys;
-          diverge("mismatch", badkeys->a[0]->s, firstexp, o);
+          if (badkeys->n == 1 && !strcmp(badkeys->a[0]->s, "nalloc") && !soft_div) {
+            /* a difference in the allocation count alone does not change what the code does next: remember it
+               and keep checking the rest of the script (reported at the end, or together with a later divergence) */
+            soft_div = j_mkobj();
+            j_put(soft_div, "step", j_mkint(pos)); j_put(soft_div, "call", st); j_put(soft_div, "exp", firstexp); j_put(soft_div, "obs", o);
+            soft_offset += (int) (j_get(o, "nalloc")->i - j_get(firstexp, "nalloc")->i);
+          } else {
+            cur_keys = badkeys;
+            diverge("mismatch", badkeys->a[0]->s, firstexp, o);
+          }
         }
       }
       continue;
@@ -1096,6 +1107,12 @@ static void run_script(jv *s)
     if (!strcmp(e, "cfg")) { pos++; continue; }
     diverge("badscript", e, st, NULL);
   }
+  if (soft_div) {
+    cur_call = j_get(soft_div, "call"); cur_keys = j_mkarr(); j_push(cur_keys, j_mkstr("nalloc"));
+    jv *sd = soft_div; soft_div = NULL;
+    pos = (int) j_get(sd, "step")->i;
+    diverge("mismatch", "nalloc", j_get(sd, "exp"), j_get(sd, "obs"));
+  }
   jv *v = verdict_base(1);
   j_put(v, "calls", j_mkint(ncalls));
   if (trace) j_put(v, "trace", trace);
@@ -1109,7 +1126,7 @@ static void run_line(char *line, int idx)
 {
   const char *err;
   j_reset();
-  trace = NULL; cur_call = NULL; cur_keys = NULL;
+  trace = NULL; cur_call = NULL; cur_keys = NULL; soft_div = NULL; soft_offset = 0;
   if (!strncmp(line, "<<\"BEH\", \"", 10)) {
     /* TLC PrintT of <<"BEH", ToJson(hist)>>: a TLA+ string literal; undo its escaping in place */
     char *o = line, *q = line + 10;
